@@ -363,9 +363,9 @@ def uc_trace(real, res, K=1000, tol=3):
 
 
 # ------------------------------------------------------------------------------------------ start / shutdown ramp profiles
-RAMP_RELAX = ['min_down', 'min_run', 'start_flag_missing', 'off_output', 'cap', 'start_profile', 'shutdown_profile', 'off_without_shutdown_profile',
+RAMP_RELAX = ['min_down', 'min_run', 'start_flag_missing', 'off_output', 'cap', 'start_profile', 'shutdown_profile', 'off_without_shutdown_profile', 'ramp_up', 'ramp_down',
               'shutdown_profile_must_end_off', 'start_profile_heat', 'shutdown_profile_heat', 'cap_heat', 'heat_share']
-RAMP_INVS = ['RunLongEnough', 'ProfilesFollowed', 'OffZero', 'HeatWithinShare']
+RAMP_INVS = ['RunLongEnough', 'ProfilesFollowed', 'OffZero', 'HeatWithinShare', 'RampOutsideProfiles']
 
 
 def fam_ramp_profiles(T=6, thorough=False, seed=0):
@@ -418,9 +418,20 @@ def fam_ramp_profiles(T=6, thorough=False, seed=0):
         cid += 1
         out.append(dict(id=cid, T=Th, d=1, lo=12, hi=13, price=[-3, 1, -2, 2][:Th], minrun=0, mindown=0, off0=2, run0=0, startcost=1,
                         sr=[[6, 6], [12, 12]], dr=[[12, 12], [6, 6]], q=1, heat=True, srh=[[0, 0], [6, 6]], drh=[[6, 6], [0, 0]], rf=[a, b], rfreq=rfreq))
+    # the ordinary ramp limit TOGETHER with profiles ("except during time steps that belong to the start or shutdown ramp"): plants off at the start,
+    # capacity range wide enough for the limit to bind between on-steps, into the first shutdown-profile step and out of the last start-profile step
+    for (sr, dr), ramp, minrun in itertools.product([([(1, 1)], []), ([(1, 1), (2, 2)], [(1, 1)]), ([], [(2, 2), (1, 1)]), ([(1, 2)], [(1, 2)]), ([], [(1, 1)])], (1, 2), (0, 1)):
+        if not thorough and (minrun == 1 and len(sr) + len(dr) > 2 or (cid + seed) % 2):
+            cid += 1
+            continue
+        cid += 1
+        out.append(dict(id=cid, T=T, d=1, lo=2, hi=4, price=[-3, 1, -2, 2, -3, 1, -1, -2][:T], minrun=minrun, mindown=0, off0=2, run0=0, startcost=1,
+                        sr=[list(x) for x in sr], dr=[list(x) for x in dr], q=1, heat=False, srh=[[0, 0] for _ in sr], drh=[[0, 0] for _ in dr], ramp=ramp))
     for c in out:
         c.setdefault('rf', [1, 1])
         c.setdefault('rfreq', None)
+        c.setdefault('ramp', -1)
+        c.setdefault('last0', (c['sr'][c['run0'] - 1][0] if 0 < c['run0'] <= len(c['sr']) else c['lo']) if c['run0'] > 0 else 0)
     return out
 
 
@@ -436,6 +447,8 @@ class RampReal:
                   last_dispatch=float((c['sr'][c['run0'] - 1][0] if 0 < c['run0'] <= len(c['sr']) else c['lo']) if c['run0'] > 0 else 0))
         if c.get('rfreq'):
             kw.update(ramp_freq=c['rfreq'])
+        if c.get('ramp', -1) >= 0:
+            kw.update(ramp=float(c['ramp']))
         if c['sr']:
             kw.update(start_ramp_lower_bounds=[float(x[0]) for x in c['sr']], start_ramp_upper_bounds=[float(x[1]) for x in c['sr']])
         if c['dr']:
@@ -507,7 +520,7 @@ def ramp_profiles(chk, tier, seed):
     chk.add_tlc(st2)
     for c in cfgs:
         sel = dict(family='ramp_profiles', heat=c['heat'], T=c['T'], start_profile=len(c['sr']), shutdown_profile=len(c['dr']), minrun=c['minrun'], mindown=c['mindown'], off0=c['off0'], run0=c['run0'],
-                   ramp_freq=c.get('rfreq') or 'grid')
+                   ramp_freq=c.get('rfreq') or 'grid', ramp=c.get('ramp', -1) >= 0)
         try:
             real = RampReal(c)
         except Exception as e:
